@@ -38,6 +38,8 @@ func init() {
 		Old: "\tvar err error\n\tu.once.Do(func() { err = u.loadSeries(ctx) })\n\tif err != nil {\n\t\treturn nil, err\n\t}\n\n\tin, err := u.next.Next(ctx)", New: "\tin, err := u.next.Next(ctx)", Expect: "unaryNegation"})
 	mutant(Mutant{Rule: "R-INITBEFOREUSE", Name: "function-series-before-load", File: "execution/function/operator.go",
 		Old: "\tif err := o.loadSeries(ctx); err != nil {\n\t\treturn nil, err\n\t}\n\n\t// Process non-variadic", New: "\t// Process non-variadic", Expect: "functionOperator"})
+	mutant(Mutant{Rule: "R-INITBEFOREUSE", Name: "coalesce-next-without-load", File: "execution/exchange/coalesce.go",
+		Old: "\tvar err error\n\tc.once.Do(func() { err = c.loadSeries(ctx) })\n\tif err != nil {\n\t\treturn nil, err\n\t}\n\n\tvar out []model.StepVector = nil", New: "\tvar out []model.StepVector = nil", Expect: "coalesceOperator.Next"})
 	mutant(Mutant{Rule: "R-LOSTCANCEL", Name: "cancel-not-deferred", File: "engine/engine.go",
 		Old: "\tctx, cancel := context.WithCancel(ctx)\n\tdefer cancel()\n", New: "\tctx, cancel := context.WithCancel(ctx)\n", Expect: "Exec"})
 	mutant(Mutant{Rule: "R-ZEROSTEP", Name: "noarg-zero-step", File: "execution/function/operator.go",
@@ -316,6 +318,23 @@ func checkUseAfterDo(p *core.Program, oi *onceInfo, W map[string]bool, initFns m
 				}
 				if !onlyStore && !after(ins) {
 					viol = fmt.Sprintf("%s is read at %s before %s.Do has run: when this method is called first the state is still uninitialised", n.Obj().Name()+"."+fld, p.Pos(ins.Pos()), oi.field)
+				}
+			}
+		}
+		// closures created here (goroutine bodies, callbacks) that read W run at or after their creation
+		if mc, ok := ins.(*ssa.MakeClosure); ok && !after(ins) {
+			if cf, ok := mc.Fn.(*ssa.Function); ok && !initFns[cf] {
+				onceArg := false
+				for _, r := range core.Referrers(mc) {
+					if cc := core.CallCommon(r); cc != nil && isOnceDo(cc) {
+						onceArg = true
+					}
+				}
+				if !onceArg {
+					if hit, ok := readsW(cf); ok {
+						viol = fmt.Sprintf("a closure created at %s reads %s before %s.Do has run", p.Pos(ins.Pos()), hit, oi.field)
+						return
+					}
 				}
 			}
 		}
